@@ -1,7 +1,7 @@
 // c07gen: correspondence stream for C07 (semantic.Parse + Version.CompareStr vs Scalibr.Semantic.compareStr).
 // Case grammar (see lean/Drivers/C07.lean):
 //
-//	cmp <eco> <hexA> <hexB>          → r=<a?b> rr=<b?a> ra=<a?a> rb=<b?b> acc=<xy>
+//	cmp <eco> <hexA> <hexB>          → r=<a?b> rr=<b?a> ra=<a?a> rb=<b?b> acc=<xy> mp=<MustParse a><MustParse b>
 //	tri <eco> <hexA> <hexB> <hexC>   → ab=<a?b> bc=<b?c> ac=<a?c> ba=<b?a> cb=<c?b> ca=<c?a> acc=<xyz>
 //
 // eco is the ecosystem name with ' ' written as '_'; results are lt|eq|gt|err|panic|unsup.
@@ -61,12 +61,44 @@ func accFlag(eco, a string) string {
 	return s
 }
 
+// mp1: semantic.MustParse — "k" it returns a version that compares exactly as the one Parse returns, "u" it panics
+// with ErrUnsupportedEcosystem, "e" it panics with another error (the documented behaviour for a version Parse
+// rejects), "p" it panics with something that is not an error, "x" it returns although Parse fails / disagrees
+func mp1(eco, a string) (out string) {
+	defer func() {
+		if r := recover(); r != nil {
+			err, ok := r.(error)
+			switch {
+			case ok && errors.Is(err, semantic.ErrUnsupportedEcosystem):
+				out = "u"
+			case ok && errors.Is(err, semantic.ErrInvalidVersion):
+				out = "e"
+			case ok:
+				out = "e"
+			default:
+				out = "p"
+			}
+		}
+	}()
+	v := semantic.MustParse(a, eco)
+	w, err := semantic.Parse(a, eco)
+	if err != nil || v == nil {
+		return "x"
+	}
+	r1, e1 := v.CompareStr(a)
+	r2, e2 := w.CompareStr(a)
+	if r1 != r2 || (e1 == nil) != (e2 == nil) {
+		return "x"
+	}
+	return "k"
+}
+
 func ecoTok(eco string) string { return strings.ReplaceAll(eco, " ", "_") }
 func ecoOf(tok string) string  { return strings.ReplaceAll(tok, "_", " ") }
 
 func runCmp(eco, a, b string) (string, string) {
 	c := fmt.Sprintf("cmp %s %s %s", ecoTok(eco), hx.Hex(a), hx.Hex(b))
-	r := fmt.Sprintf("r=%s rr=%s ra=%s rb=%s acc=%s%s", cmp1(eco, a, b), cmp1(eco, b, a), cmp1(eco, a, a), cmp1(eco, b, b), accFlag(eco, a), accFlag(eco, b))
+	r := fmt.Sprintf("r=%s rr=%s ra=%s rb=%s acc=%s%s mp=%s%s", cmp1(eco, a, b), cmp1(eco, b, a), cmp1(eco, a, a), cmp1(eco, b, b), accFlag(eco, a), accFlag(eco, b), mp1(eco, a), mp1(eco, b))
 	return c, r
 }
 
@@ -108,6 +140,25 @@ type family struct {
 	// version followed by one more tail (exts): [0…0, letter…], [0…0], [letter], [n], …
 	extBases []string
 	exts     []string
+}
+
+// spellings that are NOT ecosystem names (the names are case-sensitive and exact)
+var nearMissEcos = []string{"Foo", "NPM", "Npm", "debian", "alpine", "RedHat", "Redhat", "Red  Hat", "pypi", "Pypi", "PYPI", "maven", "nuget", "Nuget",
+	"rubygems", "Rubygems", "cran", "Cran", "Crates.io", "crates", "go", "GO", "hex", "pub", "conancenter", "Conan", "packagist", "ubuntu", "Alpine ", " Alpine",
+	"Debian:11", "Alpine:v3.18", "Ubuntu:22.04", "Rocky Linux", "AlmaLinux", "GitHub Actions", "Bitnami", "Hackage", "SwiftURL", "OSS-Fuzz", "Linux", "Android"}
+
+// example pairs from the ecosystems' documentation (inputs only; the verdicts are the specification's)
+var docExamples = [][2]string{
+	{"1.0.0-alpha", "1.0.0-alpha.1"}, {"1.0.0-alpha.beta", "1.0.0-beta"}, {"1.0.0-rc.1", "1.0.0"}, {"1.0.0-beta.2", "1.0.0-beta.11"}, {"1.0.0-RC", "1.0.0-rc"}, {"1.0.0+a", "1.0.0+b"},
+	{"1.0.0.1", "1.0.0"}, {"1.0.0-beta", "1.0.0"}, {"1.0.0.0", "1.0.0"}, {"1.0.0-x", "1.0.0"}, {"1.0.0-alpha.2", "1.0.0-alpha.10"}, {"1.0.0-alpha", "1.0.0-alpha.0"},
+	{"1.2-3", "1.2.3"}, {"1.10", "1.9"}, {"1.2", "1.2.0"}, {"1.0a", "1.0"},
+	{"1.0~rc1", "1.0"}, {"1:0.9", "2.0"}, {"1.0-1", "1.0-2"}, {"1.0+b1", "1.0"}, {"1.0", "1.0-0"},
+	{"1.0.a", "1.0"}, {"1.0.b1", "1.0.b2"}, {"1.0", "1"}, {"1.0.rc1", "1.0.rc.1"}, {"1.0.pre", "1.0.rc"},
+	{"1.0^git1", "1.0"}, {"1.0^git1", "1.0.1"}, {"1.0a", "1.0.a"},
+	{"1.0.0-dev", "1.0.0-alpha"}, {"1.0.0-beta", "1.0.0-RC"}, {"1.0.0-RC", "1.0.0"}, {"1.0.0", "1.0.0-p1"}, {"v1.0.0", "1.0.0"},
+	{"1.0.dev1", "1.0a1"}, {"1.0a1", "1.0"}, {"1.0", "1.0.post1"}, {"1!0.5", "2.0"}, {"1.0", "1.0.0"}, {"1.0rc1", "1.0c1"},
+	{"1.0_alpha", "1.0_rc"}, {"1.0_rc1", "1.0"}, {"1.0", "1.0_p1"}, {"1.0_cvs", "1.0"}, {"1.0-r1", "1.0-r2"},
+	{"1.0-alpha-1", "1.0-beta-1"}, {"1.0-rc", "1.0"}, {"1.0-SNAPSHOT", "1.0"}, {"1.0", "1.0-sp"}, {"1.0-ga", "1.0"}, {"1.0.0", "1"}, {"1.0-a1", "1.0-alpha-1"},
 }
 
 var bigNum = "1234567890123456789012345"
@@ -520,7 +571,7 @@ var families = []family{
 		refs:    []string{"1.0", "1.0-rc1"}, grammar: gMaven,
 		triPool:  cross([]string{"1", "1.0", "1.1", "0", "1.0.1"}, []string{"", ".alpha", ".rc1", ".foo", "-foo", ".sp", "-sp", ".1", "-1", "rc", "a", ".a", "-a", "alpha", "-alpha-1", "-alpha1", "-rc", "-SNAPSHOT", "-ga", "-m1", "-xyz1"}),
 		bases:    []string{"1.0", "1"},
-		classes:  []string{"", "-alpha", "-beta", "-milestone", "-rc", "-snapshot", "-sp", "-ga", "-final", "-release", "-foo", "-1", ".1", ".0", ".alpha", ".foo", "-a", "-b", "-m", "-cr"},
+		classes:  []string{"", "-alpha", "-beta", "-milestone", "-rc", "-snapshot", "-sp", "-ga", "-final", "-release", "-foo", "-1", ".1", ".0", ".alpha", ".foo", "-a", "-b", "-m", "-cr", ".sp", ".ga"},
 		sufs:     []string{"", "1", "-1", ".1"},
 		extBases: []string{"1.0", "1", "1.0-rc", "1-foo"},
 		exts:     []string{".0", "-0", "-ga", ".final", "-a", ".0.a", ".0.0", "-0-1", ".1", "-1", "0", "a", "-", ".release.1"}},
@@ -699,7 +750,7 @@ func genTriple(r *rand.Rand, f *family) (string, string, string) {
 
 func pickEco(r *rand.Rand, f *family) string {
 	if r.Intn(400) == 0 {
-		return pick(r, []string{"Foo", "NPM", "debian", "alpine", "RedHat"})
+		return pick(r, nearMissEcos)
 	}
 	return pick(r, f.ecos)
 }
@@ -773,6 +824,26 @@ func main() {
 						}
 					}
 				}
+			}
+		}
+	}
+	// (0a) every ecosystem name the stream knows, plus near-miss spellings that must be unsupported, against the
+	// documented example pairs of ALL ecosystems (the expected verdicts live in the specification:
+	// Spec/Semantic/Ecosystems.lean prints wit= for an ecosystem's own examples), in BOTH tiers
+	{
+		k := 0
+		var names []string
+		for fi := range families {
+			names = append(names, families[fi].ecos...)
+		}
+		names = append(names, nearMissEcos...)
+		for _, eco := range names {
+			for _, w := range docExamples {
+				k++
+				if k%*shards != *shard {
+					continue
+				}
+				emitCmp(eco, w[0], w[1])
 			}
 		}
 	}
